@@ -649,6 +649,11 @@ def ev_comprehension(ex, n, st, spec, b):
         raise Unsupported("nested comprehension")
     g = n.generators[0]
     kind, seq = ex.classify_iter(g.iter, st) if not b else _classify_with_binds(ex, g.iter, st, spec, b)
+    h0 = ex.cx.spec.get("__comprehension_first__")
+    if h0 is not None:
+        r0 = h0(ex, n, st, spec, b, kind, seq)
+        if r0 is not None:
+            return r0
     if kind == "seq" and seq[0] == "plain" and not g.ifs and getattr(n, "_sum_context", False):
         return ("__gsum__", n, g, seq[1], dict(b))
     if kind == "seq" and seq[0] == "plain":
